@@ -464,6 +464,11 @@ func c15World(t *testing.T, r *simcore.Run) any {
 				}
 				// (a result that becomes ready at the very instant of the deadline may lose against
 				// the cancellation: a round that lasted until its deadline may have lost them all)
+				if len(pathOf) == 0 {
+					// nobody even sent a request
+					r.Fail("C15", "round/error-with-paths", "%s: error although %d paths were offered, and no client probed any of them", line, len(offered))
+					return
+				}
 				if completed > 0 && time.Since(roundStart) < 400*time.Millisecond {
 					r.Fail("C15", "round/error-with-paths", "%s: error although %d paths were offered and %d client(s) completed a measurement", line, len(offered), completed)
 					return
